@@ -6,6 +6,7 @@ import (
 	"sort"
 	"strings"
 	"testing"
+	"time"
 
 	"verifharness/evid"
 	"verifharness/model"
@@ -61,6 +62,9 @@ func applyNetEvent(n *model.Net, e netEvent) []string {
 		lines = n.Mode(e.U, e.Ch, e.Changes)
 	case "umode":
 		lines = []string{":" + n.MeNick() + " MODE " + n.MeNick() + " :" + e.S}
+	case "reconnect":
+		n.ClientReconnected()
+		lines = []string{"\x00RECONNECT"} // not a line: the runner closes the connection and connects again
 	}
 	n.RefreshViews()
 	return lines
@@ -86,8 +90,10 @@ func genNetEvent(t *rapid.T, n *model.Net) (netEvent, bool) {
 		sort.Strings(cs)
 		return cs
 	}
-	kinds := []string{"join", "join", "join", "clientjoin", "clientjoin", "part", "quit", "kick", "nick", "topic", "mode", "mode", "mode", "clientpart", "adduser", "umode", "clientnick"}
+	kinds := []string{"join", "join", "join", "clientjoin", "clientjoin", "part", "quit", "kick", "nick", "topic", "mode", "mode", "mode", "clientpart", "adduser", "umode", "clientnick", "join", "mode", "part", "reconnect"}
 	switch k := rapid.SampledFrom(kinds).Draw(t, "event"); k {
+	case "reconnect":
+		return netEvent{Kind: "reconnect"}, true
 	case "adduser":
 		if len(n.Users) >= 7 {
 			return netEvent{}, false
@@ -407,6 +413,24 @@ func runC13(sc *c13Scenario) *Violation {
 	var history []string
 	for ei, e := range sc.Events {
 		lines := applyNetEvent(n, e)
+		if e.Kind == "reconnect" {
+			// the same client disconnects and registers again: the tracker must start from the client alone
+			done := make(chan struct{})
+			go func() { tc.C.Close(); close(done) }()
+			select {
+			case <-done:
+			case <-time.After(stallTimeout()):
+				return violationf("C13", "event %d: Close did not return", ei)
+			}
+			waitCond(stallTimeout(), func() bool { k, _, _ := connGoroutines(tc.C); return k == 0 })
+			if err := tc.connect(); err != nil {
+				return violationf("C13", "event %d: reconnect: %v", ei, err)
+			}
+			conn = tc.conn()
+			pos = 0
+			lines = []string{fmt.Sprintf(":%s 001 %s :Welcome back %s!%s@%s", n.Server, n.MeNick(), n.MeNick(), n.Users[0].Ident, n.Users[0].Host)}
+			history = append(history, "<client reconnects>")
+		}
 		for _, l := range lines {
 			conn.SendLine(l)
 			history = append(history, l)
